@@ -1,6 +1,5 @@
-(* GroupWitness.v — engine G: concrete witnesses for the known findings of the grouping pipeline
-   (K11: the suffix XOR cancels the prefix hash when the suffix covers the whole file; K10: the
-   transform path never applies the strict replication filter) and small non-vacuity instances.
+(* GroupWitness.v — engine G: boolean checkers of the hypotheses (reflection), small non-vacuity instances
+   and the regression instances of the repaired defects K10 / K11 (f4a00ae, e6af885).
    All hypotheses are checked by boolean functions (sound by the lemmas below) so that each witness
    costs exactly one vm_compute of a closed boolean; no other tactic ever sees the file contents. *)
 From FV Require Import Base ListLib GroupModel GroupProofs GroupProofs2.
@@ -28,12 +27,6 @@ Definition cf_b (H : list N -> hash) (c : gcfg) (fs : list file) : bool :=
             (bytes_eqb (H (fdata f)) (H (fdata f')) ||
              existsb (fun s => (s <? flen f) && bytes_eqb (xkey H s (fdata f)) (xkey H s (fdata f'))) (suffix_cands c)))
            (bytes_eqb (fdata f) (fdata f'))) fs) fs.
-Definition K11_b (c : gcfg) (fs : list file) : bool :=
-  match max_prefix c, max_suffix c with
-  | Some p, Some s =>
-      existsb (fun f => (suffix_threshold (dkind c (fdev f)) <=? flen f) && (flen f <? p) && (flen f <=? s)) fs
-  | _, _ => false
-  end.
 Definition differ (f f' : file) : bool := negb (bytes_eqb (fdata f) (fdata f')).
 Definition has_mixed_group (gs : list group) : bool :=
   existsb (fun g => existsb (fun f => existsb (differ f) (gfiles g)) (gfiles g)) gs.
@@ -68,14 +61,6 @@ Proof.
     rewrite E2, orb_true_r. reflexivity.
 Qed.
 
-Lemma K11_b_sound c fs : K11_b c fs = true -> K11 c fs.
-Proof.
-  unfold K11_b, K11. destruct (max_prefix c) as [p|]; [|discriminate]. destruct (max_suffix c) as [s|]; [|discriminate].
-  intros Hb. apply existsb_exists in Hb. destruct Hb as (f & Hf & Hb).
-  apply andb_true_iff in Hb. destruct Hb as [Hb H3]. apply andb_true_iff in Hb. destruct Hb as [H1 H2].
-  apply N.leb_le in H1, H3. apply N.ltb_lt in H2. exists p, s, f. auto 10.
-Qed.
-
 Lemma has_mixed_group_spec gs : has_mixed_group gs = true ->
   exists g f f', In g gs /\ In f (gfiles g) /\ In f' (gfiles g) /\ fdata f <> fdata f'.
 Proof.
@@ -86,7 +71,9 @@ Proof.
   rewrite Et in H. discriminate.
 Qed.
 
-(* ------------------------------------------------------------------ K11 *)
+(* ------------------------------------------------------------------ regression instance of K11 (repaired by f4a00ae) *)
+(* two pairs of 65536-byte files differing in every byte, SSD, --max-prefix-size = --max-suffix-size = 70000: before the
+   repair the suffix stage XORed H(file) with H(file) and the four files formed one group with hash 0 *)
 Definition mkf (name ino len : N) (d : list N) : file := mkfile [[47]; [name]] (1, ino) 0 ino len d.
 Definition k11_d1 : list N := repeat 1 (N.to_nat 65536).
 Definition k11_d2 : list N := repeat 2 (N.to_nat 65536).
@@ -95,29 +82,14 @@ Definition k11_cfg : gcfg :=
 Definition k11_files : list file :=
   [mkf 97 1 65536 k11_d1; mkf 98 2 65536 k11_d1; mkf 99 3 65536 k11_d2; mkf 100 4 65536 k11_d2].
 Definition idT (d : list N) : option (list N) := Some d.
+Definition shows (gs : list group) : list (N * list path) := map (fun g => (glen g, map fpath (gfiles g))) gs.
 
 Lemma k11_ids : wf_ids_b k11_files = true. Proof. vm_compute. reflexivity. Qed.
 Lemma k11_len : wf_len_b k11_files = true. Proof. vm_compute. reflexivity. Qed.
 Lemma k11_cf : cf_b toyH k11_cfg k11_files = true. Proof. vm_compute. reflexivity. Qed.
-Lemma k11_k : K11_b k11_cfg k11_files = true. Proof. vm_compute. reflexivity. Qed.
-Lemma k11_mixed : has_mixed_group (group_files toyH idT k11_cfg (nd_of_mode 0) k11_files) = true.
+Lemma k11_regression : shows (group_files toyH idT k11_cfg (nd_of_mode 0) k11_files)
+                       = [(65536, [[[47]; [99]]; [[47]; [100]]]); (65536, [[[47]; [97]]; [[47]; [98]]])].
 Proof. vm_compute. reflexivity. Qed.
-
-Lemma k11_witness :
-  exists (H : list N -> hash) (T : list N -> option (list N)) (c : gcfg) (n : nd) (scanned : list file),
-    wf_nd n /\ wf_ids scanned /\ wf_len scanned /\ collision_free H c scanned /\
-    skip_content c = false /\ transform c = false /\ K11 c scanned /\
-    ~ (forall g, In g (group_files H T c n scanned) -> forall f f', In f (gfiles g) -> In f' (gfiles g) ->
-         fdata f = fdata f' /\ glen g = N.of_nat (length (fdata f))).
-Proof.
-  exists toyH, idT, k11_cfg, (nd_of_mode 0), k11_files.
-  split; [exact wf_nd_mode0|]. split; [exact (wf_ids_b_sound _ k11_ids)|].
-  split; [exact (wf_len_b_sound _ k11_len)|]. split; [exact (cf_b_sound _ _ _ k11_cf)|].
-  split; [reflexivity|]. split; [reflexivity|]. split; [exact (K11_b_sound _ _ k11_k)|].
-  intros Hall.
-  destruct (has_mixed_group_spec _ k11_mixed) as (g & f & f' & Hg & Hf & Hf' & Hne).
-  apply Hne. exact (proj1 (Hall g Hg f f' Hf Hf')).
-Qed.
 
 (* ------------------------------------------------------------------ small non-vacuity instances *)
 (* three 6-byte files, two equal and one differing in the last byte, prefix length 4 < 6: the pair is
@@ -125,13 +97,9 @@ Qed.
 Definition ex_cfg : gcfg := mkcfg (Some 4) None (fun _ => SSD) (Over 1) [] true false false 0 None.
 Definition ex_files : list file :=
   [mkf 97 1 6 [1;2;3;4;5;6]; mkf 98 2 6 [1;2;3;4;5;6]; mkf 99 3 6 [1;2;3;4;5;7]; mkf 100 3 6 [1;2;3;4;5;7]].
-Definition shows (gs : list group) : list (N * list path) := map (fun g => (glen g, map fpath (gfiles g))) gs.
-
 Lemma ex_ids : wf_ids_b ex_files = true. Proof. vm_compute. reflexivity. Qed.
 Lemma ex_len : wf_len_b ex_files = true. Proof. vm_compute. reflexivity. Qed.
 Lemma ex_cf : cf_b toyH ex_cfg ex_files = true. Proof. vm_compute. reflexivity. Qed.
-Lemma ex_notK11 : ~ K11 ex_cfg ex_files.
-Proof. intros (p & s & f & _ & E & _). discriminate. Qed.
 Lemma ex_output : shows (group_files toyH idT ex_cfg (nd_of_mode 0) ex_files) = [(6, [[[47]; [97]]; [[47]; [98]]])].
 Proof. vm_compute. reflexivity. Qed.
 
